@@ -1704,7 +1704,7 @@ class TrajectoryStore:
                 elif data is not None:
                     val = getattr(data, name)
 
-                self._write_to_nc_var(var, index, name, field, val)
+                self._write_to_nc_var(var, index, name, field, val, nc_file.species)
                 nc_file.traj_var[0][index] = index
 
     def _write_to_nc_var(
@@ -1714,8 +1714,13 @@ class TrajectoryStore:
         name: str,
         field: FieldMetadata,
         val: Any,
+        species: list[Species] | None = None,
     ) -> None:
-        """Write a value to a NetCDF variable at the given index."""
+        """Write a value to a NetCDF variable at the given index.
+
+        Species-indexed values are stored at the position of each species in
+        `species`, the list of species making up the file's species dimension
+        (which only contains the species present when the file was created)."""
 
         # Handle missing values.
         if val is None:
@@ -1729,6 +1734,14 @@ class TrajectoryStore:
         # variable length types of the appropriate base type.
         has_sp = Dimension.SPECIES in field.dimensions
         has_tm = Dimension.THRUST_MODE in field.dimensions
+        if has_sp:
+            species = species or []
+            missing = [sp.name for sp in val if sp not in species]
+            if missing:
+                raise ValueError(
+                    f'Data field "{name}" has values for species {missing} '
+                    'that are not in the species dimension of the NetCDF file'
+                )
         match (has_sp, has_tm):
             case (False, False):
                 # float, np.ndarray
@@ -1739,12 +1752,12 @@ class TrajectoryStore:
                     var[index, ti] = val[tm]
             case (True, False):
                 # SpeciesValues[float], SpeciesValues[np.ndarray]
-                for si, sp in enumerate(Species):
+                for si, sp in enumerate(species):
                     if sp in val:
                         var[index, si] = val[sp]
             case (True, True):
                 # SpeciesValues[ThrustModeValues]
-                for si, sp in enumerate(Species):
+                for si, sp in enumerate(species):
                     for ti, tm in enumerate(ThrustMode):
                         if sp in val and tm in val[sp]:
                             var[index, si, ti] = val[sp][tm]
@@ -1779,23 +1792,31 @@ class TrajectoryStore:
                     return None
                 return var[index]
             case (True, False, False) | (True, False, True):
-                # SpeciesValues[float] | SpeciesValues[np.ndarray]
-                return SpeciesValues(
-                    {sp: var[index, si] for si, sp in enumerate(species)}
-                )
+                # SpeciesValues[float] | SpeciesValues[np.ndarray]: only
+                # species that were actually written for this field.
+                fill = var.get_fill_value()
+                values = {}
+                for si, sp in enumerate(species):
+                    v = var[index, si]
+                    if not np.all(v == fill):
+                        values[sp] = v
+                return SpeciesValues(values)
             case (False, True, False):
                 # ThrustModeValues
                 return ThrustModeValues(
                     {tm: var[index, ti] for ti, tm in enumerate(ThrustMode)}
                 )
             case (True, True, False):
-                # SpeciesValues[ThrustModeValues]
+                # SpeciesValues[ThrustModeValues]: only species that were
+                # actually written for this field.
+                fill = var.get_fill_value()
                 return SpeciesValues[ThrustModeValues](
                     {
                         sp: ThrustModeValues(
                             {tm: var[index, si, ti] for ti, tm in enumerate(ThrustMode)}
                         )
                         for si, sp in enumerate(species)
+                        if not np.all(var[index, si] == fill)
                     }
                 )
             case _:
